@@ -37,3 +37,137 @@ pub fn c14_native_initialisation() {
     }
     println!("c14_native_initialisation: {} cases checked", cases);
 }
+
+// ------------------------------------------------------------------------------------------------------------------
+// BOUNDED STAND-IN (not a proof) at COMPONENT level (State + generator; the kernels themselves are the Kani harnesses and
+// the enumeration above): initialisation components push exactly one population of the requested number of UNEVALUATED
+// individuals of the problem's dimension inside the domain / a permutation of all positions; each boundary-repair component
+// terminates, leaves every coordinate within the bounds, changes no coordinate that already was inside, and is idempotent.
+use crate::{
+    components::{boundary::{CompleteOneTailedNormalCorrection, Mirror, Saturation, Toroidal},
+                 initialization::{Empty, RandomBitstring, RandomPermutation, RandomSpread}},
+    problems::{LimitedVectorProblem, Problem, VectorProblem},
+    state::common::Populations,
+    Component, Individual, SingleObjective, State,
+};
+
+pub struct Boxed(pub Vec<std::ops::Range<f64>>);
+impl Problem for Boxed {
+    type Encoding = Vec<f64>;
+    type Objective = SingleObjective;
+    fn name(&self) -> &str { "Boxed" }
+}
+impl VectorProblem for Boxed {
+    type Element = f64;
+    fn dimension(&self) -> usize { self.0.len() }
+}
+impl LimitedVectorProblem for Boxed {
+    fn domain(&self) -> Vec<std::ops::Range<f64>> { self.0.clone() }
+}
+pub struct Perm(pub usize);
+impl Problem for Perm {
+    type Encoding = Vec<usize>;
+    type Objective = SingleObjective;
+    fn name(&self) -> &str { "Perm" }
+}
+impl VectorProblem for Perm {
+    type Element = usize;
+    fn dimension(&self) -> usize { self.0 }
+}
+pub struct Bits(pub usize);
+impl Problem for Bits {
+    type Encoding = Vec<bool>;
+    type Objective = SingleObjective;
+    fn name(&self) -> &str { "Bits" }
+}
+impl VectorProblem for Bits {
+    type Element = bool;
+    fn dimension(&self) -> usize { self.0 }
+}
+
+fn fresh<P: Problem>(seed: u64) -> State<'static, P> {
+    let mut state: State<P> = State::new();
+    state.insert(Random::new(seed));
+    state.insert(Populations::<P>::new());
+    state
+}
+
+// @native-harness
+pub fn c14_native_components() {
+    let mut cases = 0u64;
+    let domains: [Vec<std::ops::Range<f64>>; 3] = [vec![0.0..1.0], vec![-5.0..5.0, 2.0..2.5], vec![-1.0e3..-1.0e2, 0.0..1.0e-6, -0.5..0.5]];
+    // ---- initialisation components
+    for seed in 0..16u64 {
+        for n in [0u32, 1, 2, 7] {
+            for d in &domains {
+                let p = Boxed(d.clone());
+                let mut state = fresh::<Boxed>(seed);
+                state.populations_mut().push(vec![Individual::new_unevaluated(vec![9.0; d.len()])]);
+                RandomSpread::new::<Boxed, f64>(n).execute(&p, &mut state).expect("RandomSpread must not fail");
+                let pops = state.populations();
+                let fail = |why: &str| -> ! { eprintln!("COUNTEREXAMPLE RandomSpread n={n} domain={d:?} seed={seed}: {why}"); panic!("initialisation component violates C14") };
+                if pops.len() != 2 || pops.peek(1).len() != 1 { fail("not exactly one population was pushed") }
+                if pops.current().len() != n as usize { fail("not exactly the requested number of individuals") }
+                for i in pops.current() {
+                    if i.is_evaluated() { fail("a fresh individual is already evaluated") }
+                    if i.solution().len() != d.len() { fail("wrong dimension") }
+                    if i.solution().iter().zip(d).any(|(x, r)| !(r.start <= *x && *x <= r.end)) { fail("a coordinate lies outside its domain bounds") }
+                }
+                cases += 1;
+            }
+            for dim in [0usize, 1, 2, 5] {
+                let mut state = fresh::<Perm>(seed);
+                RandomPermutation::new::<Perm>(n).execute(&Perm(dim), &mut state).expect("RandomPermutation must not fail");
+                let pops = state.populations();
+                let fail = |why: &str| -> ! { eprintln!("COUNTEREXAMPLE RandomPermutation n={n} dimension={dim} seed={seed}: {why}"); panic!("initialisation component violates C14") };
+                if pops.len() != 1 || pops.current().len() != n as usize { fail("not exactly one population of the requested size") }
+                for i in pops.current() {
+                    let mut s = i.solution().clone(); s.sort_unstable();
+                    if i.is_evaluated() || s != (0..dim).collect::<Vec<_>>() { fail("not an unevaluated permutation of all positions") }
+                }
+                let mut state = fresh::<Bits>(seed);
+                RandomBitstring::new_uniform::<Bits>(n).execute(&Bits(dim), &mut state).expect("RandomBitstring must not fail");
+                let pops = state.populations();
+                if pops.len() != 1 || pops.current().len() != n as usize || pops.current().iter().any(|i| i.is_evaluated() || i.solution().len() != dim) {
+                    eprintln!("COUNTEREXAMPLE RandomBitstring n={n} dimension={dim} seed={seed}"); panic!("initialisation component violates C14")
+                }
+                cases += 1;
+            }
+        }
+        let mut state = fresh::<Perm>(seed);
+        <Empty as Component<Perm>>::execute(&Empty, &Perm(3), &mut state).unwrap();
+        if state.populations().len() != 1 || !state.populations().current().is_empty() { panic!("Empty must push exactly one empty population") }
+    }
+    // ---- boundary-repair components: grid of coordinates relative to each domain (inside, on the bounds, outside near and far)
+    let rel = [-1.0e6, -37.25, -2.0, -1.0, -0.5, -1.0e-9, 0.0, 1.0e-9, 0.25, 0.5, 1.0 - 1.0e-9, 1.0, 1.0 + 1.0e-9, 1.5, 2.0, 3.0, 41.75, 1.0e6];
+    for d in &domains {
+        let p = Boxed(d.clone());
+        let pop: Vec<Vec<f64>> = rel.iter().map(|t| d.iter().map(|r| r.start + t * (r.end - r.start)).collect()).collect();
+        let ops: Vec<(&str, Box<dyn Component<Boxed>>)> = vec![("Saturation", Saturation::new()), ("Toroidal", Toroidal::new()), ("Mirror", Mirror::new()),
+                                                              ("CompleteOneTailedNormalCorrection", CompleteOneTailedNormalCorrection::new())];
+        for (name, op) in &ops {
+            for seed in 0..8u64 {
+                let mut state = fresh::<Boxed>(seed);
+                state.populations_mut().push(vec![Individual::new_unevaluated(vec![77.0; d.len()])]);
+                state.populations_mut().push(pop.iter().cloned().map(Individual::new_unevaluated).collect());
+                op.execute(&p, &mut state).expect("boundary repair must not fail");
+                let once: Vec<Vec<f64>> = state.populations().current().iter().map(|i| i.solution().clone()).collect();
+                op.execute(&p, &mut state).expect("boundary repair must not fail");
+                let twice: Vec<Vec<f64>> = state.populations().current().iter().map(|i| i.solution().clone()).collect();
+                let fail = |why: String| -> ! { eprintln!("COUNTEREXAMPLE op={name} domain={d:?} seed={seed}: {why}"); panic!("boundary repair component violates C14") };
+                if state.populations().len() != 2 || *state.populations().peek(1)[0].solution() != vec![77.0; d.len()] { fail("the population below was disturbed or the stack height changed".into()) }
+                if once.len() != pop.len() { fail("the number of individuals changed".into()) }
+                for (k, (before, after)) in pop.iter().zip(&once).enumerate() {
+                    for (j, r) in d.iter().enumerate() {
+                        let w = r.end - r.start;
+                        if !(after[j] >= r.start - 1e-9 * w && after[j] <= r.end + 1e-9 * w) { fail(format!("coordinate {j} of {before:?} was repaired to {} outside [{}, {}]", after[j], r.start, r.end)) }
+                        if before[j] >= r.start && before[j] <= r.end && after[j] != before[j] { fail(format!("coordinate {j} = {} was inside [{}, {}] but changed to {}", before[j], r.start, r.end, after[j])) }
+                        if after[j] >= r.start && after[j] <= r.end && twice[k][j] != after[j] { fail(format!("not idempotent: coordinate {j} {} -> {} -> {}", before[j], after[j], twice[k][j])) }
+                    }
+                }
+                cases += 1;
+            }
+        }
+    }
+    println!("c14_native_components: {} cases checked", cases);
+}
